@@ -368,3 +368,33 @@ Definition obs_cp_counts (st : HOState) : list Z :=
   flat_map (fun o => match h_kind o with
                      | KSlider s => [Z.of_nat (length (sl_control_points s))]
                      | _ => [] end) (ho_objects st).
+
+(* ---------- [vertices] is scratch: it never influences the outcome ---------- *)
+Definition with_vertices (st : HOState) (v : list PCP) : HOState :=
+  mkHO (ho_last st) (ho_curve st) v (ho_objects st) (ho_mode st).
+
+Lemma line_spec_vertices : forall st v line s1 s2,
+  snd (line_spec_with st line s1) = snd (line_spec_with (with_vertices st v) line s2) /\
+  with_vertices (fst (line_spec_with st line s1)) [] =
+  with_vertices (fst (line_spec_with (with_vertices st v) line s2)) [].
+Proof.
+  intros st v line s1 s2.
+  unfold line_spec_with, accept, starts_combo, with_vertices.
+  cbn [ho_last ho_curve ho_vertices ho_objects ho_mode].
+  repeat match goal with
+         | |- context [match ?x with _ => _ end] => destruct x
+         end; split; reflexivity.
+Qed.
+
+Theorem vertices_irrelevant : forall st v line st1 r1 st2 r2,
+  parse_hit_objects st line = Done (st1, r1) ->
+  parse_hit_objects (with_vertices st v) line = Done (st2, r2) ->
+  r1 = r2 /\ with_vertices st1 [] = with_vertices st2 [].
+Proof.
+  intros st v line st1 r1 st2 r2 H1 H2.
+  destruct (parse_hit_objects_spec st line) as [s1 E1].
+  destruct (parse_hit_objects_spec (with_vertices st v) line) as [s2 E2].
+  rewrite E1 in H1. rewrite E2 in H2. injection H1 as H1. injection H2 as H2.
+  pose proof (line_spec_vertices st v line s1 s2) as [Hr Hs].
+  rewrite H1, H2 in Hr, Hs. cbn [fst snd] in Hr, Hs. split; assumption.
+Qed.
